@@ -597,3 +597,68 @@ def oracles(rep, focus, desc, rc, ev, bad, summ, real_events, real_errors, pre_s
     if rc == 0 and not dry:
         left = [r for r in post_dst if r.endswith(".sy.tmp") and r not in pre_src and r not in pre_dst]
         if left: rep.oracle_fail("C05/working-file-left", f"working files remain after a successful run: {left[:3]}", desc)
+
+def run_bloom(tier="quick", seed=1, work=None, replay=None, **kw):
+    """C06: the Bloom-filter branch of plan_deletions (more than BLOOM_THRESHOLD source entries) on a real tree:
+    the deletions performed must be exactly the destination entries without a source counterpart (what the set
+    branch plans: theorem bloom_eq_set), whatever false positives the filter produces."""
+    rep = Report(rule="one real tree with BLOOM_THRESHOLD+1.. source entries (empty files in directories) and a destination holding the same entries "
+                      "minus some, plus stale files, stale directories with contents and names differing in one character from source names; "
+                      "non-trivial = the run deleted at least one stale entry; distinct = distinct (seed, tree)")
+    rng = Rng(seed * 31337 + 6)
+    import re as _re
+    thr = 10000
+    try:
+        m = _re.search(r"def BLOOM_THRESHOLD : Nat := (\d+)", open(os.path.join(VERIF, "lean", "SyModel", "Generated", "Consts.lean")).read())
+        if m: thr = int(m.group(1))
+    except OSError: pass
+    os.makedirs(work, exist_ok=True)
+    contents = Contents()
+    for ci in range(1 if tier == "quick" else 3):
+        case_dir = os.path.join(work, f"bloom{ci}")
+        src_root, dst_root = os.path.join(case_dir, "src"), os.path.join(case_dir, "dst")
+        ndirs = 20; per = (thr + 1 + rng.range(0, 300)) // ndirs + 1
+        names = []
+        t = BASE_T * 10**9
+        for d in range(ndirs):
+            os.makedirs(os.path.join(src_root, f"d{d:02d}")); os.makedirs(os.path.join(dst_root, f"d{d:02d}"))
+            for i in range(per):
+                rel = f"d{d:02d}/f{i:05d}"; names.append(rel)
+                open(os.path.join(src_root, rel), "wb").close(); os.utime(os.path.join(src_root, rel), ns=(t, t))
+        missing = set(rng.pick(names) for _ in range(40))
+        for rel in names:
+            if rel in missing: continue
+            open(os.path.join(dst_root, rel), "wb").close(); os.utime(os.path.join(dst_root, rel), ns=(t, t))
+        stale = set()
+        for _ in range(150):
+            base = rng.pick(names)
+            rel = base + rng.pick(["x", "0", ".old", "~"])          # near-misses of real names
+            open(os.path.join(dst_root, rel), "wb").write(b"stale"); stale.add(rel)
+        for k in range(5):
+            os.makedirs(os.path.join(dst_root, f"stale{k}/sub")); stale |= {f"stale{k}", f"stale{k}/sub"}
+            for j in range(3):
+                open(os.path.join(dst_root, f"stale{k}/sub/g{j}"), "wb").write(b"g"); stale.add(f"stale{k}/sub/g{j}")
+        src_n = len(names) + ndirs
+        flags = ["--delete", "--force-delete", "-j", str(rng.pick([1, 8]))]
+        rc, out, err = run_sy([src_root, dst_root, "--json"] + flags, case_dir, timeout=600)
+        ev, bad = parse_json_lines(out)
+        deleted = sorted(os.path.relpath(e["path"], dst_root) for e in ev if e.get("type") == "delete")
+        errors = [e for e in ev if e.get("type") == "error"]
+        left = set()
+        for dp, dn, fn in os.walk(dst_root):
+            for name in dn + fn: left.add(os.path.relpath(os.path.join(dp, name), dst_root))
+        want = set(names) | {f"d{d:02d}" for d in range(ndirs)}
+        desc = {"case": ci, "seed": seed, "flags": flags, "source_entries": src_n, "threshold": thr, "stale": len(stale), "missing": len(missing)}
+        rep.case((seed, ci, src_n), bool(deleted)); rep.tag("bloom.branch" if src_n > thr else "bloom.NOT-REACHED")
+        rep.sample({**desc, "exit": rc, "deleted": len(deleted), "errors": len(errors)})
+        if src_n <= thr: rep.skipped.append("Bloom branch not reached: source entries <= threshold")
+        if rc != 0: rep.oracle_fail("C06/bloom-run-failed", f"--delete run over {src_n} entries exits {rc}: {err[-200:]}", desc)
+        if sorted(stale) != deleted:
+            extra = [d for d in deleted if d not in stale][:3]; miss = [s for s in sorted(stale) if s not in deleted][:3]
+            if extra: rep.oracle_fail("C06/counterpart-deleted", f"Bloom branch deleted entries that have a source counterpart: {extra}", desc)
+            if miss: rep.oracle_fail("C06/not-a-mirror", f"Bloom branch left stale entries: {miss}", desc)
+        if rc == 0 and left != want:
+            rep.oracle_fail("C06/not-a-mirror", f"after --delete: extra {sorted(left - want)[:3]} missing {sorted(want - left)[:3]}", desc)
+        if errors: rep.oracle_fail("C06/spurious-delete-errors", f"{len(errors)} errors while deleting stale entries: {errors[0].get('path')}", desc)
+        shutil.rmtree(case_dir, ignore_errors=True)
+    return rep.to_dict()
